@@ -94,10 +94,10 @@ theorem c08_code_table (reg : Registry) (m : Msg) (i : Id) (meth : String)
 /-- On an `MCPServer` every request gets exactly one response with its id and every notification
 none — whatever tools, resources and custom methods are registered and however they behave
 (return, raise, return nonsense); the only proviso is that the addressed method is not a custom
-one that deliberately returns `(None, None)`.  The server's own handlers, the repaired
+one that deliberately returns `(None, None)` or a response of its own making (`CBeh.Proper`).  The server's own handlers, the repaired
 `notifications/initialized` included, are proved faithful. -/
 theorem c08_server_one_response (S : Server) (m : Msg) :
-    (∀ i, m.id = some i → (∀ meth, m.method = some meth → S.custom meth ≠ some .silent) →
+    (∀ i, m.id = some i → (∀ meth b, m.method = some meth → S.custom meth = some b → b.Proper) →
         ∃ resp s, handle (serverReg S) m = .ok (some resp, s) ∧ resp.id = i)
     ∧ (m.id = none → ∃ s, handle (serverReg S) m = .ok (none, s)) := by
   refine ⟨?_, fun hid => c08_none_per_notification (serverReg S) m hid⟩
@@ -115,7 +115,7 @@ theorem c08_server_one_response (S : Server) (m : Msg) :
     by_cases hkm : k = meth
     · subst hkm
       simp only [reg', if_true] at hk
-      exact serverReg_faithful S k h (hs k hm) hk
+      exact serverReg_faithful S k h (hs k · hm) hk
     · simp [reg', hkm] at hk
 
 /-- Tool and resource codes on an `MCPServer` (methods not overridden by a custom handler):
@@ -187,7 +187,8 @@ def srvEx : Server :=
       else if n = "sync" then some .returnsNonsense else none,
     resources := fun u => if u = "file:///a" then some (.returns "txt") else none,
     custom := fun n => if n = "x/none" then some .returnsNonsense else if n = "x/silent" then some .silent
-      else none,
+      else if n = "notifications/progress" then some (.acks (.str "tok") (some "h"))
+      else if n = "x/legacy" then some (.echoes "r") else none,
     nextSid := "sid-1" }
 
 /-- a message with a method -/
@@ -223,6 +224,14 @@ example : handle (serverReg srvEx) (msg none "notifications/cancelled") = .ok (n
     ∧ handle (serverReg srvEx) (msg none "tools/call" { name := .str "boom" }) = .ok (none, none)
     ∧ handle (serverReg srvEx) (msg none "x/none") = .ok (none, none)
     ∧ handle (serverReg srvEx) { id := none, method := none } = .ok (none, none) := by decide
+
+/-- a notification whose REGISTERED handler hands back something (an acknowledgement with an id
+taken from the params, a legacy envelope without id) is still not answered; only the handler's
+session id passes -/
+example : handle (serverReg srvEx) (msg none "notifications/progress") = .ok (none, some "h")
+    ∧ handle (serverReg srvEx) (msg none "x/legacy") = .ok (none, none)
+    ∧ handle (serverReg srvEx) (msg (some (.int 3)) "x/legacy")
+      = .ok (some (.result (.int 3) (.custom "r")), none) := by decide
 
 /-- the hypothesis of `c08_one_response_per_request` is needed: a handler answering with a
 foreign id is forwarded as it is -/
